@@ -1,6 +1,6 @@
 (* C15 JSON round-trip fidelity of flags and segments (document-tree level; integers within the int64 range, which
    every decoded integer is; number text <-> float64 is outside the model) *)
-From LD Require Import Base F32 Data Model Ops Codec CodecFacts CodecRT DecodeWF.
+From LD Require Import Base F32 Data Model Ops Bucket Eval Codec CodecFacts CodecRT DecodeWF PrepEval DecodePlain TransEval RoundTripEval.
 
 (* decode (encode v) returns the canonical form of v: lookup data dropped, a rollout without buckets dropped,
    legacy client-side flags normalised *)
@@ -74,3 +74,21 @@ Theorem C15_accepted_segment_fixed_point : forall j s1, decode_segment j = Some 
              decode_segment (encode_segment s2) = Some s2.
 Proof. exact accepted_segment_reaches_fixed_point. Qed.
 Print Assumptions C15_accepted_segment_fixed_point.
+
+(* ---- the re-decoded flag evaluates identically ----
+   j accepted, f1 its decoding, f2 the decoding of f1's encoding; the store holds decoded items and redecoded_env is the
+   store after each item went through the same encode / decode step (C15_redecoded_store_is_redecoding). For every
+   context, provider and option set the outcome of evaluating f2 over the re-decoded store is the outcome of evaluating
+   f1 over the original store: value, index, reason, experiment bit and the whole trace; rt_obs is the identity except
+   that an event carries the re-decoded form of the prerequisite flag it reports. *)
+Theorem C15_redecoded_flag_evaluates_identically : forall re_ok re_match o E P c j f1 f2,
+  decoded_env E -> decode_flag j = Some f1 -> decode_flag (encode_flag f1) = Some f2 ->
+  run re_ok re_match o (redecoded_env E) P c f2 =
+  match run re_ok re_match o E P c f1 with Done r => Done (rt_out r) | Panic => Panic | OutOfFuel => OutOfFuel end.
+Proof. exact redecoded_flag_evaluates_identically. Qed.
+Print Assumptions C15_redecoded_flag_evaluates_identically.
+Theorem C15_redecoded_store_is_redecoding : forall E, decoded_env E ->
+  Forall (fun kv => decode_flag (encode_flag (snd kv)) = Some (canon_flag (snd kv))) (e_flags E) /\
+  Forall (fun kv => decode_segment (encode_segment (snd kv)) = Some (canon_segment (snd kv))) (e_segments E).
+Proof. exact redecoded_env_is_redecoding. Qed.
+Print Assumptions C15_redecoded_store_is_redecoding.
